@@ -71,6 +71,16 @@ pub(crate) mod ann_backend;
 // SIMD-accelerated vector math (runtime-dispatched, safe fallback)
 pub(crate) mod simd;
 
+/// Verification hooks (feature `verif-hooks`, off by default): re-exports of crate-private
+/// SIMD entry points for the external runtime-verification harness.
+#[cfg(feature = "verif-hooks")]
+pub mod verif_hooks {
+    pub use crate::simd::verif::{available as simd_available, kernel_table as simd_kernel_table};
+    pub use crate::simd::{
+        cosine_similarity_f32, dot_f32, l2_distance_f32, l2_distance_sq_f32, sum_squares_f32,
+    };
+}
+
 // Vector search: HNSW k-NN index
 pub mod hnsw_index;
 
